@@ -259,6 +259,7 @@ func (mi *MessageInfo) unmarshalPointerLazy(b []byte, p pointer, groupTag protow
 		var n int
 		err := errUnknown
 		discardUnknown := false
+		deferred := false
 	Field:
 		switch {
 		case f != nil:
@@ -281,6 +282,7 @@ func (mi *MessageInfo) unmarshalPointerLazy(b []byte, p pointer, groupTag protow
 					switch valid {
 					case ValidationValid:
 						// Skip over the valid field and continue.
+						deferred = true
 						err = nil
 						presence.SetPresentUnatomic(f.presenceIndex, mi.presenceSize)
 						requiredMask |= f.validation.requiredBit
@@ -378,17 +380,19 @@ func (mi *MessageInfo) unmarshalPointerLazy(b []byte, p pointer, groupTag protow
 		}
 		b = b[n:]
 		end := start - len(b)
-		if lazyDecode && f != nil && f.isLazy {
-			if num != lastNum {
+		if deferred {
+			// Only occurrences that were actually deferred belong in the
+			// index: one that has the wrong wire type is kept as an unknown
+			// field and must not also be covered by the field's raw span.
+			if i := len(lazyIndex) - 1; i >= 0 && lazyIndex[i].FieldNum == uint32(num) && lazyIndex[i].End == uint32(pos) {
+				lazyIndex[i].End = uint32(end)
+				lazyIndex[i].MultipleContiguous = true
+			} else {
 				lazyIndex = append(lazyIndex, protolazy.IndexEntry{
 					FieldNum: uint32(num),
 					Start:    uint32(pos),
 					End:      uint32(end),
 				})
-			} else {
-				i := len(lazyIndex) - 1
-				lazyIndex[i].End = uint32(end)
-				lazyIndex[i].MultipleContiguous = true
 			}
 		}
 		if num < lastNum {
